@@ -1,6 +1,7 @@
 """Per-property checks."""
 import json
 import os
+import shutil
 
 import engines
 import hist
@@ -992,12 +993,310 @@ def c11(rep, tier, seed, wd, replay):
     rep.cov["roundtrip_scenarios"] = len(scen)
 
 
+def run_conc(rep, dh, wd, keys, rng, n_steered, n_soak, soak_size, gomaxprocs, want_lin=True):
+    """steered schedules + soak; returns (found_violation, stats)"""
+    import conc
+    from common import run_impl, run_model
+    accts, perms, admins = hist.std_config(keys, nacct=5)
+    cfg = hist.config_lines(accts, perms, admins)
+    found = False
+    for p in gomaxprocs:
+        env = {"GOMAXPROCS": str(p)} if p else None
+        scen = []
+        for _ in range(n_steered):
+            kind, prefix, parks, cops, workers = conc.steered(rng.fork(), accts)
+            scen.append((kind, prefix, parks, cops, workers))
+        for _ in range(n_soak):
+            scen.append(("soak", [], "-", conc.soak(rng.fork(), accts, soak_size), 32))
+        lines = []
+        for kind, prefix, parks, cops, workers in scen:
+            lines += ["reset"] + cfg + conc.scenario_lines(prefix, parks, cops, workers)
+        impl, crashed, err = run_impl(dh, wd, lines, env=env, timeout=1200)
+        # walk the output
+        pos = 0
+        jl, jmeta = [], []
+        slash_h = []
+        for si, (kind, prefix, parks, cops, workers) in enumerate(scen):
+            n = 1 + len(prefix) + 1 + len(cops) + 2
+            out = impl[pos:pos + n]
+            pos += n
+            rep.dist("scenario", kind)
+            if len(out) < n or any(o.startswith("TIMEOUT") for o in out):
+                to = [o for o in out if o.startswith("TIMEOUT")]
+                if to:
+                    rep.violation("deadlock", "concurrent requests did not all complete within the watchdog: " + to[0],
+                                  {"config": cfg, "scenario": conc.scenario_lines(prefix, parks, cops, workers), "gomaxprocs": p})
+                    found = True
+                elif crashed:
+                    rep.broken.append(("implementation-crash:conc", err, False))
+                break
+            go_line = out[1 + len(prefix) + 1 + len(cops)]
+            final = out[-1]
+            res = conc.parse_go(go_line)
+            rep.count("%s|%s|%s" % (p, kind, json.dumps(cops)), True)
+            # released signatures for the slashing judge
+            ops_seq = prefix + [op for _, op in cops]
+            impl_seq = out[1:1 + len(prefix)] + [r_[2] for r_ in res]
+            slash_h.append({"cfg": cfg, "ops": ops_seq, "impl": impl_seq, "accts": accts, "scen": (kind, prefix, parks, cops, workers)})
+            if want_lin and kind != "soak":
+                jl += ["reset"] + cfg + prefix + ["lin-begin"]
+                for (d, op), (ti, tr, rs) in zip(cops, res):
+                    jl.append("lin-op %d %d %s %s" % (ti, tr, rs.replace(" ", "+"), op))
+                jl.append("lin-end " + final)
+                jmeta.append((si, len(prefix) + 1 + len(cops) + 2))
+        # judge: slashability of everything released
+        bad, nrel = engines.judge_slashing(slash_h, orderfree=True)
+        rep.cov["released_signatures_judged"] = rep.cov.get("released_signatures_judged", 0) + nrel
+        if bad:
+            hi = bad[0][0]
+            kind, prefix, parks, cops, workers = slash_h[hi]["scen"]
+            rep.violation("concurrent-slashable", "two concurrently issued conflicting requests were both signed (%s)" % bad[0][-1],
+                          {"config": cfg, "scenario": conc.scenario_lines(prefix, parks, cops, workers), "gomaxprocs": p,
+                           "observed": slash_h[hi]["impl"]})
+            found = True
+        if jl:
+            out = run_model(jl)
+            # outputs: for each scenario: begin + prefix outs + lin-begin + lin-op oks + verdict
+            verdicts = [o for o in out if o.startswith("LINEARIZABLE") or o.startswith("NOT-LINEARIZABLE")]
+            rep.cov["schedules_judged_linearizable"] = rep.cov.get("schedules_judged_linearizable", 0) + sum(1 for v in verdicts if v == "LINEARIZABLE")
+            for (si, _), v in zip(jmeta, verdicts):
+                if v != "LINEARIZABLE":
+                    kind, prefix, parks, cops, workers = scen[si]
+                    rep.violation("not-linearizable", "no order of the concurrent requests compatible with real time reproduces the observed verdicts and final store on the sequential Lean model",
+                                  {"config": cfg, "scenario": conc.scenario_lines(prefix, parks, cops, workers), "gomaxprocs": p})
+                    found = True
+                    break
+    return found
+
+
+def lock_trace_histories(rep, tier, seed, wd, pid):
+    """(a) the recorded locker/store call sequence of every request equals the model's"""
+    dh = build_harness(wd)
+    keys = hist.interop_keys(dh)
+    rng = Rng(seed * 2654435761 + sum(ord(c) for c in pid))
+    n_hist, n_ops = tier_sizes(tier, (20, 30), (200, 60))
+    hs = engines.gen_histories(rng, keys, n_hist, n_ops, {"faults": False, "huge": True, "final_export": False})
+    for h in hs:
+        h["cfg"] = ["locktrace"] + h["cfg"]
+        ops = []
+        for op in h["ops"]:
+            ops.append(op)
+            if op.split()[0] in SIGN_KINDS:
+                ops.append("ltrace")
+        h["ops"] = ops
+    crashed, err = engines.exec_histories(dh, wd, hs)
+    if crashed:
+        rep.broken.append(("implementation-crash:locktrace", err, False))
+    ntr = 0
+    first_bad = None
+    for h in hs:
+        for i, op in enumerate(h["ops"]):
+            if op == "ltrace" and i < len(h["impl"]):
+                ntr += 1
+                tr = h["impl"][i]
+                rep.dist("trace_shape", "none" if tr == "-" else "%dL" % tr.count("L:"))
+                rep.count("trace|" + h["ops"][i - 1], tr != "-")
+        bad = [b for b in h["bad"]]
+        if bad and first_bad is None:
+            first_bad = (h, bad[0])
+    rep.cov["lock_traces_compared"] = ntr
+    if hs:
+        h = hs[0]
+        idx = [i for i, o in enumerate(h["ops"]) if o == "ltrace"][:2]
+        rep.sample({"request": [h["ops"][i - 1][:120] for i in idx], "trace": [h["impl"][i] for i in idx if i < len(h["impl"])]})
+    return first_bad, dh, keys, rng
+
+
+def c04(rep, tier, seed, wd, replay):
+    rep.cov["rule"] = ("(a) for seeded request histories the recorded sequence of locker calls and store accesses of every request "
+                       "(PreLock, Lock k.., PostLock, fetches, store, Unlock .. reversed; none for refused/duplicate requests) must equal "
+                       "the Lean model's; (b) steered schedules: 2-5 concurrent single/batch/proposal requests over shared keys, a request "
+                       "parked between its read and its write so an unprotected rival would overlap; invocation/response times recorded; the "
+                       "Lean driver searches for an order compatible with real time in which the sequential model reproduces verdicts and "
+                       "final export (linearizability), and judges released signatures for slashability; (c) soak: 150 mixed requests on "
+                       "32 workers; non-trivial = schedule or trace with at least one lock acquisition")
+    rep.assumptions += ["Go's sync.Mutex and scheduler are modelled (any interleaving of enabled steps); real interleavings are sampled and steered, only the model's are covered universally",
+                        "badger Update / WriteBatch.Flush are atomic"]
+    prove(rep, "C04")
+    first_bad, dh, keys, rng = lock_trace_histories(rep, tier, seed, wd, "C04")
+    ns, nsoak, ssize = tier_sizes(tier, (60, 2, 150), (1200, 10, 400))
+    found = run_conc(rep, dh, wd, keys, rng, ns, nsoak, ssize, [None] if tier != "thorough" else [2, 16, 128])
+    if first_bad is not None:
+        h, (i, op, il, ml) = first_bad
+        rep.broken.append(("correspondence:lock-trace(model lock protocol vs ruler+locker calls)",
+                           json.dumps({"config": h["cfg"], "ops": h["ops"][:i + 1], "impl": il[:300], "model": ml[:300]}), found))
+
+
+def c15(rep, tier, seed, wd, replay):
+    rep.cov["rule"] = ("(a) lock-call traces as in C04: every Lock lies between PreLock and PostLock, Unlocks follow the rules call in reverse "
+                       "order, a failed duplicate check makes no lock call; (b) watchdog: concurrent batches naming shared keys in opposite, "
+                       "nested and crossing orders, arriving while others are parked inside their critical section, and sustained random load, "
+                       "must all return within 30 s, under several GOMAXPROCS; non-trivial = scenario with >=2 concurrent requests sharing a key")
+    rep.assumptions += ["a blocked sync.Mutex.Lock proceeds once the mutex is released (no starvation assumed for the watchdog horizon)"]
+    prove(rep, "C15")
+    first_bad, dh, keys, rng = lock_trace_histories(rep, tier, seed, wd, "C15")
+    ns, nsoak, ssize = tier_sizes(tier, (40, 3, 200), (600, 12, 600))
+    found = run_conc(rep, dh, wd, keys, rng, ns, nsoak, ssize, [2, None] if tier != "thorough" else [2, 16, 128], want_lin=False)
+    if first_bad is not None:
+        h, (i, op, il, ml) = first_bad
+        rep.broken.append(("correspondence:lock-trace(model lock protocol vs ruler+locker calls)",
+                           json.dumps({"config": h["cfg"], "ops": h["ops"][:i + 1], "impl": il[:300], "model": ml[:300]}), found))
+
+
+def c03(rep, tier, seed, wd, replay):
+    import crash
+    import conc
+    import imp
+    from concurrent.futures import ThreadPoolExecutor
+    from common import run_model
+    rep.cov["rule"] = ("(a) call-order traces: every signing call is preceded, inside the same request, by a successful store exit "
+                       "(trace P L Q F S X U G equal to the model's); (b) for seeded histories (single/batch attestations, proposals) a "
+                       "child process is SIGKILLed at EVERY hook point (each store read/write entry and exit, signing entry, before and after "
+                       "each reply); the same directory is reopened; the restarted instance's export must cover every signature returned "
+                       "before the kill (Lean judge), must equal the model's store either before or after the interrupted request, and "
+                       "conflicting probes must be refused; (c) the open store's SyncWrites option is read back, and one run under strace "
+                       "checks the value log is opened O_DSYNC (or fsynced) before the store call returns; non-trivial = kill point after at "
+                       "least one released signature")
+    rep.assumptions += ["SIGKILL cannot lose page-cache data: durability against power loss is assumed from SyncWrites (probed by option read-back and syscall trace only)",
+                        "badger replays what it synced; torn writes inside badger are not modelled"]
+    prove(rep, "C03")
+    first_bad, dh, keys, rng = lock_trace_histories(rep, tier, seed, wd, "C03")
+    # the order judge: in every trace, a G (sign) has an X (store exit) before it
+    accts, cfg = crash.crash_config(keys)
+    nh = tier_sizes(tier, 6, 40)
+    found = False
+    total_points = 0
+    cases = []
+    base = os.path.join(wd, "crash")
+    os.makedirs(base, exist_ok=True)
+    hists = [crash.gen_history(rng.fork(), accts) for _ in range(nh)]
+    for hi, ops in enumerate(hists):
+        d = os.path.join(base, "h%d-count" % hi, "dir")
+        os.makedirs(os.path.dirname(d), exist_ok=True)
+        out, rc, err = crash.run_child(dh, d, cfg + ops + ["syncwrites"])
+        pts = [l for l in out if l.startswith("POINTS")]
+        if rc != 0 or not pts:
+            raise Broken("crash-engine", "count run failed: " + err[-500:])
+        if "true" not in out[-2:]:
+            rep.broken.append(("fact:SyncWrites(open store option read back)", "the open badger store reports SyncWrites=%s" % out[-2:], False))
+        n = int(pts[0].split()[1])
+        total_points += n
+        for j in range(n):
+            cases.append((hi, j))
+
+    def one(case):
+        hi, j = case
+        ops = hists[hi]
+        d = os.path.join(base, "h%d-k%d" % (hi, j), "dir")
+        os.makedirs(os.path.dirname(d), exist_ok=True)
+        out, rc, err = crash.run_child(dh, d, cfg + ops, kill_at=j)
+        lines = out[1:]          # drop "ok" of begin
+        k = len(lines)           # ops replied before death
+        rel = hist.released(ops[:k], lines, accts)
+        probes = crash.probes_for(rel, accts)
+        cont = ["export"] + probes + ops[k + 1:] + ["export"]
+        out2, rc2, err2 = crash.run_child(dh, d, cfg + cont, points=False)
+        shutil.rmtree(os.path.dirname(d), ignore_errors=True)
+        return (hi, j, k, lines, rel, probes, cont, out2[1:], rc, rc2, err2)
+    with ThreadPoolExecutor(max_workers=12) as ex:
+        results = list(ex.map(one, cases))
+    # model: candidate states
+    ml = []
+    for (hi, j, k, lines, rel, probes, cont, out2, rc, rc2, err2) in results:
+        ops = hists[hi]
+        for kk in (k, k + 1):
+            ml += ["reset"] + cfg + ops[:kk] + cont
+    mout = run_model(ml)
+    pos = 0
+    jl, jmeta = [], []
+    for (hi, j, k, lines, rel, probes, cont, out2, rc, rc2, err2) in results:
+        ops = hists[hi]
+        cand = []
+        for kk in (k, k + 1):
+            n = 1 + len(ops[:kk]) + len(cont)
+            seg = mout[pos:pos + n]
+            pos += n
+            cand.append(seg[1 + len(ops[:kk]):])
+        rep.dist("killed_during_op", ops[k].split()[0] if k < len(ops) else "after-last")
+        rep.count("%d|%d" % (hi, j), len(rel) > 0)
+        if rc2 != 0 or len(out2) < len(cont):
+            rep.violation("restart-failed", "the instance could not be restarted / died after a kill at hook point %d" % j,
+                          {"config": cfg, "ops": ops, "kill_at_point": j, "stderr": err2[-400:]})
+            found = True
+            break
+
+        def same(a, b):
+            return len(a) == len(b) and all((hist.states_of(x) == hist.states_of(y)) if not x.startswith("E") else x.strip() == y.strip()
+                                            for x, y in zip(a, b))
+        if not (same(out2, cand[0]) or same(out2, cand[1])):
+            rep.broken.append(("correspondence:crash(store after kill+restart is neither the model's state before nor after the interrupted request)",
+                               json.dumps({"config": cfg, "ops": ops, "kill_at_point": j, "replied": k, "after_restart": out2[:3],
+                                           "model_before": cand[0][:3], "model_after": cand[1][:3]}), False))
+        ex = imp.parse_export(out2[0]) or {}
+        for (kd, key, data, sig, i, jj, st) in rel:
+            f = data.split(",")
+            e = ex.get(key.hex(), ("-1", "-1", "-1"))
+            if kd == "att":
+                jl.append("jcoveratt %s %s %s %s" % (f[4], f[6], e[1], e[2]))
+            else:
+                jl.append("jcoverprop %s %s" % (f[1], e[0]))
+            jmeta.append((hi, j, k, kd, data))
+        # conflicting probes must not be signed
+        for pi, pr in enumerate(probes):
+            if hist.states_of(out2[1 + pi]) == ["S"]:
+                rep.violation("conflict-signed-after-crash", "a request conflicting with a signature returned before the kill was signed after restart",
+                              {"config": cfg, "ops": ops, "kill_at_point": j, "replied_before_kill": lines, "probe": pr})
+                found = True
+                break
+        if found:
+            break
+    if jl and not found:
+        jo = run_model(jl)
+        rep.cov["released_signatures_checked_after_restart"] = len(jl)
+        for meta, o in zip(jmeta, jo):
+            if o.strip() != "ok":
+                hi, j, k, kd, data = meta
+                rep.violation("not-recorded-before-release", "a signature returned before the kill is not covered by the record found after restart",
+                              {"config": cfg, "ops": hists[hi], "kill_at_point": j, "replied": k, "signature_for": data[:120]})
+                found = True
+                break
+    rep.cov["kill_restart_cycles"] = len(results)
+    rep.cov["hook_points"] = total_points
+    rep.cov["exhaustive"] = True
+    # (c) syscall probe
+    tr = os.path.join(base, "strace.txt")
+    d = os.path.join(base, "st", "dir")
+    os.makedirs(os.path.dirname(d), exist_ok=True)
+    try:
+        out, rc, err = crash.run_child(dh, d, cfg + hists[0][:3], points=True, mark=True, strace=tr)
+        txt = open(tr).read() if os.path.exists(tr) else ""
+        vlog_open = [l for l in txt.splitlines() if ".vlog" in l and "openat" in l]
+        dsync = any("O_DSYNC" in l or "O_SYNC" in l for l in vlog_open)
+        fsync = any(("fdatasync" in l or "fsync" in l) and ".vlog" in l for l in txt.splitlines())
+        marks = sum(1 for l in txt.splitlines() if "MARK " in l)
+        rep.cov["strace"] = {"vlog_open_calls": len(vlog_open), "opened_O_DSYNC": dsync, "fsync_on_vlog": fsync, "store_exit_marks": marks}
+        if vlog_open and marks and not (dsync or fsync):
+            rep.broken.append(("fact:durability-barrier(value log neither opened O_DSYNC nor fsynced before Store returns)",
+                               "\n".join(vlog_open[:3]), False))
+    except Exception as ex_:
+        rep.cov["strace"] = {"unavailable": str(ex_)[:200]}
+    if first_bad is not None:
+        h, (i, op, il, ml_) = first_bad
+        rep.broken.append(("correspondence:call-order(model trace vs locker/store/sign calls)",
+                           json.dumps({"config": h["cfg"], "ops": h["ops"][:i + 1], "impl": il[:300], "model": ml_[:300]}), found))
+
+
 THEOREMS.update({
+    "C03": ("Dirk.Props.C03", ["Dirk.C03_recorded_before_release", "Dirk.C03_refuses_after_crash", "Dirk.C03_released_never_slashable"]),
+    "C04": ("Dirk.Props.C04", ["Dirk.Conc.C04_mutual_exclusion", "Dirk.Conc.C04_commit_atomic", "Dirk.Conc.C04_linearizable",
+                               "Dirk.Conc.C04_real_time_order", "Dirk.C04_footprint_attest", "Dirk.C04_trace_is_protocol"]),
+    "C15": ("Dirk.Props.C15", ["Dirk.Conc.C15_progress", "Dirk.Conc.C15_measure", "Dirk.Conc.C15_complete", "Dirk.Conc.C15_needs_global"]),
     "C08": ("Dirk.Props.C08", ["Dirk.C08_batch_pointwise", "Dirk.C08_leaves_injective", "Dirk.C08_header_leaves_injective",
                                "Dirk.C08_signed_root"]),
     "C09": ("Dirk.Props.C09", ["Dirk.C09_scatter_partition", "Dirk.C09_batch_eq_seq", "Dirk.C09_live_att_rule",
-                               "Dirk.C09_live_prop_rule"]),
-    "C11": ("Dirk.Props.C11", ["Dirk.C11_codec_roundtrip", "Dirk.C11_restart", "Dirk.C11_import_export_same_decisions"]),
+                               "Dirk.C09_live_prop_rule", "Dirk.C09_live_att", "Dirk.C09_live_prop"]),
+    "C11": ("Dirk.Props.C11", ["Dirk.C11_codec_roundtrip", "Dirk.C11_restart", "Dirk.C11_import_export_same_decisions",
+                               "Dirk.C11_export_exact", "Dirk.C11_last_is_highest"]),
     "C10": ("Dirk.Props.C10", ["Dirk.C10_never_lowers", "Dirk.C10_protects", "Dirk.C10_composes", "Dirk.C10_refuses_after_prop",
                                "Dirk.C10_refuses_after_att", "Dirk.C10_bad_metadata", "Dirk.C10_parse_error_no_change",
                                "Dirk.C10_legacy_counterexample"]),
@@ -1012,4 +1311,4 @@ THEOREMS.update({
                                "Dirk.C06_batch_fetch_fault", "Dirk.C06_shape_atts", "Dirk.C06_shape_msign"]),
 })
 
-CHECKS = {"C01": c01, "C02": c02, "C05": c05, "C06": c06, "C07": c07, "C08": c08, "C09": c09, "C10": c10, "C11": c11}
+CHECKS = {"C01": c01, "C02": c02, "C05": c05, "C06": c06, "C07": c07, "C08": c08, "C09": c09, "C10": c10, "C11": c11, "C04": c04, "C15": c15, "C03": c03}
